@@ -439,7 +439,7 @@ fn neg_program(muts: &[Mutant]) -> (String, Vec<u32>) {
     (src, lines)
 }
 
-fn nontrivial(c: &C15Case) -> bool {
+pub fn nontrivial(c: &C15Case) -> bool {
     if c.sentences.len() > 1 {
         return true;
     }
@@ -558,51 +558,11 @@ pub fn c15(run: &mut Run) {
         vec![],
         0.0,
     );
-    // ---- in-process tier: the macro's own parser/expander on generated sentences (no compilation)
-    let unreadable = std::sync::atomic::AtomicU64::new(0);
-    run.prop_factory(
-        "c15_inprocess",
-        "proptest (with shrinking): the same sentence grammar fed directly to the macro's parser and expander (macros/src/fn_timeline.rs included by path); the expansion is read back as a builder method chain (syn) and compared with the documented reading: setters present iff the argument was written, durations/delays/positions within 2 ulp of the real value, repeat/reverse/easing equal, keyframes in written order with exactly the written fields and values, merged lists member by member in order; non-trivial = >= 3 argument kinds or a merged list",
-        &["merged_list", "unreadable_expansion"],
-        c15_strategy,
-        run.tier.pick(300_000, 3_000_000),
-        |c: &C15Case, obs: &mut mv_engine::Obs| {
-            obs.label_if(0, c.sentences.len() > 1);
-            match crate::inproc::check_case(c) {
-                Err(e) if e.starts_with("UNREADABLE") => {
-                    unreadable.fetch_add(1, std::sync::atomic::Ordering::Relaxed);
-                    obs.label(1);
-                    obs.skipped += 1;
-                    Ok(())
-                }
-                r => {
-                    obs.judged += 1;
-                    obs.nontrivial = nontrivial(c);
-                    r
-                }
-            }
-        },
-    );
-    if unreadable.load(std::sync::atomic::Ordering::Relaxed) > 0 {
-        run.health_fail(format!("c15_inprocess: {} expansions could not be read back as a builder chain (inconclusive, not a violation)", unreadable.load(std::sync::atomic::Ordering::Relaxed)));
-    }
-    run.prop_factory(
-        "c15_inprocess_rejection",
-        "proptest: a generated sentence, one of its one-token ill-formed mutants (kinds as in c15_rejection); the macro's parser/expander must return an error; non-trivial = every case (each is an ill-formed sentence); distinct = hash of the mutant",
-        &[],
-        || {
-            (sentence_strategy(false, false), any::<u16>(), any::<u16>()).prop_map(|(s, sel, pick)| {
-                let ms = mutants(&s, sel);
-                ms[mv_engine::pick_idx(pick, ms.len())].clone()
-            })
-        },
-        run.tier.pick(300_000, 3_000_000),
-        |m: &Mutant, obs: &mut mv_engine::Obs| {
-            obs.judged += 1;
-            obs.nontrivial = true;
-            crate::inproc::check_mutant(m)
-        },
-    );
+    // ---- in-process tier: the macro's own parser/expander on generated sentences (no compilation).
+    // It lives in its own program (harness/mv-inproc) because it includes macros/src/fn_timeline.rs by
+    // path and calls a crate-internal function: if a change to /repo alters that internal signature the
+    // tier cannot be built, which says nothing about the property - the compiled tiers above still decide.
+    inprocess_tier(run);
     for k in ["merged_list", "ms_unit", "after", "nx", "float_percent", "non_ascending_keyframes"] {
         if labels.get(k).copied().unwrap_or(0) * 20 < all_cases {
             run.health_fail(format!("c15 generator: class {k} on fewer than 5% of cases"));
@@ -718,4 +678,59 @@ pub fn run_negative(muts: &[Mutant], name: &str, slot: usize) -> Vec<Outcome> {
         let _ = std::fs::remove_dir_all(&cr.dir);
     }
     out
+}
+
+pub const INPROC_RULE: &str = "proptest (with shrinking): the same sentence grammar fed directly to the macro's parser and expander (macros/src/fn_timeline.rs included by path); the expansion is read back as a builder method chain (syn) and compared with the documented reading: setters present iff the argument was written, durations/delays/positions within 2 ulp of the real value, repeat/reverse/easing equal, keyframes in written order with exactly the written fields and values, merged lists member by member in order; non-trivial = >= 3 argument kinds or a merged list";
+pub const INPROC_REJ_RULE: &str = "proptest: a generated sentence, one of its one-token ill-formed mutants (kinds as in c15_rejection); the macro's parser/expander must return an error; non-trivial = every case (each is an ill-formed sentence); distinct = hash of the mutant";
+
+/// Runs `harness/target/release/inproc` (built by ./run when it can be) and folds its numbers in.
+fn inprocess_tier(run: &mut Run) {
+    let root = mv_engine::verif_root();
+    let bin = root.join("harness/target/release/inproc");
+    if !bin.exists() {
+        println!("NOTE property=C15 in-process tier not available (harness/mv-inproc does not build against this tree; see work/logs/build-mv-inproc-release.log); compiled tiers decide");
+        run.extra("c15_inprocess_tier", json!("unavailable: mv-inproc does not build against this tree (a crate-internal signature of macros/src/fn_timeline.rs differs); the compiled tiers decide"));
+        return;
+    }
+    let stats = root.join("work").join(format!("c15-inproc-{}.json", std::process::id()));
+    let child = std::process::Command::new(&bin).arg("C15").arg(run.tier.name()).env("VERIF_SEED", run.seed.to_string()).env("INPROC_STATS", &stats).output();
+    let child = match child {
+        Ok(o) => o,
+        Err(e) => {
+            run.health_fail(format!("cannot run {}: {e}", bin.display()));
+            return;
+        }
+    };
+    for l in String::from_utf8_lossy(&child.stdout).lines() {
+        if l.starts_with("VIOLATION ") || l.starts_with("  check=") || l.starts_with("KNOWN-FINDING") {
+            println!("{l}");
+        }
+    }
+    let code = child.status.code().unwrap_or(2);
+    if code == 1 {
+        run.note_external_violation("c15_inprocess", "violation found by the in-process tier (see VIOLATION line above)");
+    } else if code != 0 {
+        run.health_fail(format!("in-process tier exited with {code}: {}", String::from_utf8_lossy(&child.stderr).chars().take(600).collect::<String>()));
+    }
+    if let Ok(st) = std::fs::read_to_string(&stats) {
+        if let Ok(v) = serde_json::from_str::<serde_json::Value>(&st) {
+            for (name, rule) in [("c15_inprocess", INPROC_RULE), ("c15_inprocess_rejection", INPROC_REJ_RULE)] {
+                let s = &v[name];
+                if s.is_null() {
+                    continue;
+                }
+                run.external(
+                    name,
+                    "proptest (child process harness/mv-inproc)",
+                    rule,
+                    s["cases"].as_u64().unwrap_or(0),
+                    s["distinct_nontrivial"].as_u64().unwrap_or(0),
+                    s["samples"].as_array().cloned().unwrap_or_default().into_iter().take(3).collect(),
+                    s["wall_s"].as_f64().unwrap_or(0.0),
+                );
+            }
+            run.extra("c15_inprocess_tier", json!({"available": true, "merged_list_fraction": v["merged_list_fraction"], "unreadable_expansions": v["unreadable"]}));
+        }
+    }
+    let _ = std::fs::remove_file(&stats);
 }
